@@ -298,6 +298,70 @@ fn common_spaces(prop: &'static str, flags: [u32; 6], tier: Tier, other_scripts:
             check_preimage(prop, &Q { tx: &tx, idx: c[1] as usize, subscript: &sub, value: 7, flag: flags[(c[0] % 6) as usize] }, acc, case);
         }));
     }
+    // larger shapes: every (n_in 1..=N, n_out 0..=N, input index) with all-distinct inputs and outputs, six flags
+    {
+        let nmax: u64 = if tier.is_thorough() { 12 } else { 8 };
+        let mut sh3: Vec<(usize, usize, usize)> = vec![];
+        for n_in in 1..=nmax as usize {
+            for n_out in 0..=nmax as usize {
+                for idx in 0..n_in {
+                    sh3.push((n_in, n_out, idx));
+                }
+            }
+        }
+        let n3 = sh3.len() as u64;
+        v.push(Space::new("larger-shapes", n3 * 6, move |case, acc| {
+            let c = coords(case.idx, &[n3, 6]);
+            let (n_in, n_out, idx) = sh3[c[0] as usize];
+            let seqs: Vec<u32> = (0..n_in).map(|k| 0xfffffff0u32.wrapping_add(k as u32 * 3)).collect();
+            let tx = base_tx(n_in, n_out, &seqs, other_scripts);
+            let sub = p2pkh(0x35);
+            check_preimage(prop, &Q { tx: &tx, idx, subscript: &sub, value: 0x0807060504030201, flag: flags[c[1] as usize] }, acc, case);
+        }));
+    }
+    // relations between inputs: three inputs whose txid / vout / sequence are each drawn from {A, B}
+    // (equal outpoints, equal txids with different vouts, equal sequences ...), spent value in {0, 1, 2} (may equal the index)
+    v.push(Space::new("input-relations", 512 * 6 * 3 * 3, move |case, acc| {
+        let c = coords(case.idx, &[512, 6, 3, 3]);
+        let mut tx = base_tx(3, 2, &[0, 0, 0], other_scripts);
+        for k in 0..3usize {
+            let bits = (c[0] >> (3 * k)) & 7;
+            tx.inputs[k].txid_wire = txid((bits & 1) as usize);
+            tx.inputs[k].vout = if bits & 2 == 0 { 0 } else { 1 };
+            tx.inputs[k].sequence = if bits & 4 == 0 { 0xffffffff } else { 2 };
+        }
+        let sub = vec![0xac];
+        check_preimage(prop, &Q { tx: &tx, idx: c[2] as usize, subscript: &sub, value: c[3], flag: flags[c[1] as usize] }, acc, case);
+    }));
+    // content sweep: one (or two adjacent) byte(s) through all 256 values at every position of the signed input's txid,
+    // of another input's txid, of a 24-byte push in the subscript and of a 24-byte push in an output script
+    v.push(Space::new("content-sweep", (32 + 32 + 24 + 24) * 256 * 2, move |case, acc| {
+        let c = coords(case.idx, &[112, 256, 2]);
+        let (pos, b, adjacent) = (c[0] as usize, c[1] as u8, c[2] == 1);
+        let mut tx = base_tx(2, 2, &[0xfffffffe, 3], other_scripts);
+        let mut sub: Vec<u8> = std::iter::once(24u8).chain((0..24).map(|i| (0x90 + i) as u8)).collect();
+        sub.push(0xac);
+        let put = |buf: &mut [u8], at: usize| {
+            buf[at] = b;
+            if adjacent {
+                let n = buf.len();
+                buf[(at + 1) % n] = b;
+            }
+        };
+        if pos < 32 {
+            put(&mut tx.inputs[0].txid_wire, pos);
+        } else if pos < 64 {
+            put(&mut tx.inputs[1].txid_wire, pos - 32);
+        } else if pos < 88 {
+            put(&mut sub[1..25], pos - 64);
+        } else {
+            let mut sc: Vec<u8> = std::iter::once(24u8).chain((0..24).map(|i| (0x40 + i) as u8)).collect();
+            put(&mut sc[1..25], pos - 88);
+            sc.push(0x87);
+            tx.outputs[1].script = sc;
+        }
+        check_preimage(prop, &Q { tx: &tx, idx: 0, subscript: &sub, value: 5000, flag: flags[((c[0] + c[1]) % 6) as usize] }, acc, case);
+    }));
     v.push(Space::new("subscripts", 9 * 2 * 6 * 2, move |case, acc| {
         let c = coords(case.idx, &[9, 2, 6, 2]);
         let tx = base_tx(2, 2, &[5, 0xfffffffe], other_scripts);
